@@ -16,6 +16,8 @@ import re, copy
 MAX_DEPTH = 4
 MAX_BLOCKS = 4000
 SMALL_HELPER_BLOCKS = 8
+SPLIT_EXCLUDE = ('idl::', 'json_ser::', '<idl::', '<json_ser::',     # engines L, M and J anchor on the functions as written
+                 'server::')                                        # the server rules explore paths with facts themselves (engine B')
 
 
 def _relabel(x, lo, bo):
@@ -597,6 +599,9 @@ class Normal:
             else:
                 d2 = inline_body(b.d, self.absorbed, raw_by_path) if self.absorbed else b.d
                 d3 = thread_flags(d2)
+                if not b.path.startswith(SPLIT_EXCLUDE) and '::_serde::' not in b.path:
+                    import splitflags
+                    d3 = splitflags.split_flags(d3, getattr(crate, 'adts', None))
                 nb = b if d3 is b.d else Body(d3, crate)
             self.bodies.append(nb)
             self._by_path.setdefault(nb.path, nb)
